@@ -155,6 +155,7 @@ type Call struct {
 	Via      string    `json:"via,omitempty"`
 	Pkg      bool      `json:"pkg,omitempty"`
 	Matchers []Matcher `json:"matchers,omitempty"`
+	Tag      string    `json:"tag,omitempty"` // name of the subtest a subpkg-body call runs in
 }
 
 func (c Call) Standalone() bool { return c.API == "ssnap" || c.API == "sjson" }
@@ -203,7 +204,10 @@ type RunOpt struct {
 	// files listed in ReadOnly (0444)
 	Writable bool
 	ReadOnly []string
-	Inject   string // when set: strace fault injection, e.g. "unlink,unlinkat:error=EPERM" (every such call of the child fails)
+	// NoFile: when > 0 the child runs with this descriptor limit (soft and hard), an everyday
+	// small limit (macOS default 256, containers) scaled down to the size of the scenario
+	NoFile int
+	Inject string // when set: strace fault injection, e.g. "unlink,unlinkat:error=EPERM" (every such call of the child fails)
 }
 
 type Event struct {
@@ -311,6 +315,10 @@ func (p *Program) RunChild(o RunOpt) *RunResult {
 		calls := o.Inject[:strings.IndexByte(o.Inject, ':')]
 		name = "strace"
 		full = append([]string{"-f", "-qq", "-e", "trace=" + calls, "-e", "inject=" + o.Inject, "-o", "/dev/null", bin}, args...)
+	}
+	if o.NoFile > 0 {
+		full = append([]string{fmt.Sprintf("--nofile=%d:%d", o.NoFile, o.NoFile), name}, full...)
+		name = "prlimit"
 	}
 	if o.AsNobody {
 		openUp := func(p string) {
@@ -587,7 +595,7 @@ func Analyze(res *RunResult, pkgSrcDir string) *Analysis {
 				a.SkipEv++
 			}
 		case "call":
-			if e.Call.Via == "direct-othertest" {
+			if e.Call.Via == "direct-othertest" || e.Call.Via == "nontest-via-othertest" {
 				// the call statement sits in the package's helper-only test file
 				e.SrcFile = "zy_helpers_test.go"
 			}
